@@ -348,6 +348,20 @@ def verdict (T : Table) (H : Hier) (st : Step) : Out :=
 def effects (T : Table) (H : Hier) (σ : Store) (steps : List Step) : Store :=
   (steps.filter (fun st => verdict T H st == .allowed)).foldl (fun σ st => σ.after st.op) σ
 
+/-! ### several accesses in ONE expression
+
+The operands of an argument list, an array literal, a chain of `.` / `+`, a statement sequence inside one `try`
+are evaluated left to right, each through its own access node; the first one that does not succeed raises and
+ends the evaluation: the operands after it are not evaluated, the callee (if any) does not run. -/
+
+/-- index of the first operand that did not succeed (if any), and the store afterwards -/
+def evalArgs (T : Table) (H : Hier) : Nat → Store → List Step → Option Nat × Store
+  | _, σ, [] => (none, σ)
+  | i, σ, st :: rest =>
+    match exec T H st.site σ st.op with
+    | (.ok _, σ') => evalArgs T H (i+1) σ' rest
+    | (_, σ') => (some i, σ')
+
 /-! ### `Class.Is` on an object, restricted to what C07's fixtures use (classes, extends, direct implements;
 interface inheritance and the BFS are C08's) -/
 
